@@ -45,6 +45,14 @@ Definition fh_ok_b (r : frow) : bool :=
   end.
 Definition FHl (fs : list frow) : Prop := forall r, In r fs -> fh_ok_b r = true.
 
+(* I4a: output edges point to products in an OUTPUT/VOLATILE state, as long as the sink has a creator *)
+Definition out_state (f : fstate) : bool :=
+  match f with FPlanned | FBuilt | FOutdated | FVolatile => true | _ => false end.
+Definition OEl (ns : list node) (fs : list frow) (ds : list dep) : Prop :=
+  forall d l f, In d ds -> dsrc d = (KStep, l) -> dsnk d = (KFile, f) ->
+  forall n c, findn (KFile, f) ns = Some n -> ncre n = Some c ->
+  c = (KStep, l) /\ exists r, findf f fs = Some r /\ out_state (fstt r) = true.
+
 (* hh = true: the full invariant; hh = false: without the clause "holding > 0 -> RUNNING" *)
 Section HH.
 Context {hh : bool}.
@@ -60,7 +68,8 @@ Record Inv (s : st) : Prop := {
   inv_ac : acyclic (EL (deps s));
   inv_ud : UDl (nodes s) (files s);
   inv_fh : FHl (files s);
-  inv_sw : SWl (steps s) }.
+  inv_sw : SWl (steps s);
+  inv_oe : OEl (nodes s) (files s) (deps s) }.
 End HH.
 Arguments sw_ok_b : clear implicits.
 Arguments SWl : clear implicits.
@@ -236,6 +245,25 @@ Proof.
     rewrite (H r Hr E n Hn). reflexivity.
 Qed.
 
+Lemma OE_reflect s : inv_outedge_b s = true <-> OEl (nodes s) (files s) (deps s).
+Proof.
+  unfold inv_outedge_b, OEl. rewrite forallb_forall. split.
+  - intros H d l f Hd Hs Hk n c Hn Hc. specialize (H d Hd). rewrite Hs, Hk in H.
+    unfold creator_of, find_node in H. fold (findn (KFile, f) (nodes s)) in H. rewrite Hn, Hc in H.
+    apply andb_true_iff in H. destruct H as [H1 H2]. apply key_eqb_eq in H1. split; [exact H1|].
+    unfold fstate_of, find_file in H2. fold (findf f (files s)) in H2.
+    destruct (findf f (files s)) as [r|]; [|discriminate]. exists r. split; [reflexivity|].
+    unfold out_state. destruct (fstt r); try discriminate; reflexivity.
+  - intros H d Hd. destruct (dsrc d) as [[] l] eqn:Es; try reflexivity.
+    destruct (dsnk d) as [[] f] eqn:Ek; try reflexivity.
+    unfold creator_of, find_node. fold (findn (KFile, f) (nodes s)).
+    destruct (findn (KFile, f) (nodes s)) as [n|] eqn:Hn; [|reflexivity].
+    destruct (ncre n) as [c|] eqn:Hc; [|reflexivity].
+    destruct (H d l f Hd Es Ek n c Hn Hc) as [H1 [r [H2 H3]]]. rewrite H1, key_eqb_refl. cbn.
+    unfold fstate_of, find_file. fold (findf f (files s)). rewrite H2.
+    unfold out_state in H3. destruct (fstt r); try discriminate; reflexivity.
+Qed.
+
 Lemma FH_reflect s : inv_fhash_b s = true <-> FHl (files s).
 Proof. unfold inv_fhash_b, FHl. rewrite forallb_forall. reflexivity. Qed.
 Lemma SW_reflect s : inv_step_b s = true <-> SWl true (steps s).
@@ -261,7 +289,7 @@ Theorem inv_b_iff s : inv_b s = true <-> Inv true s.
 Proof.
   unfold inv_b. split.
   - intros H. rewrite !andb_true_iff in H.
-    destruct H as [[[[[[[[[H1 H2] H3] H4] H5] H6] H7] H8] H9] H10].
+    destruct H as [[[[[[[[[[H1 H2] H3] H4] H5] H6] H7] H8] H9] H10] H11].
     constructor.
     + apply NW_reflect. rewrite H1, H2, H3. reflexivity.
     + apply RW_reflect. exact H4.
@@ -270,12 +298,13 @@ Proof.
     + apply UD_reflect. exact H10.
     + apply FH_reflect. exact H8.
     + apply SW_reflect. exact H9.
+    + apply OE_reflect. exact H11.
   - intros HI. pose proof (proj2 (NW_reflect s) (inv_nw _ HI)) as HN.
     rewrite !andb_true_iff in HN. destruct HN as [[H1 H2] H3].
     rewrite H1, H2, H3, (proj2 (RW_reflect s) (inv_rw _ HI)), (proj2 (DW_reflect s) (inv_dw _ HI)),
             (proj2 (AC_reflect s) (inv_ac _ HI)), (undeclared_from_inv true s HI),
             (proj2 (FH_reflect s) (inv_fh _ HI)), (proj2 (SW_reflect s) (inv_sw _ HI)),
-            (proj2 (UD_reflect s) (inv_ud _ HI)).
+            (proj2 (UD_reflect s) (inv_ud _ HI)), (proj2 (OE_reflect s) (inv_oe _ HI)).
     reflexivity.
 Qed.
 
@@ -283,7 +312,7 @@ Theorem inv_core_b_iff s : inv_core_b s = true <-> Inv false s.
 Proof.
   unfold inv_core_b. split.
   - intros H. rewrite !andb_true_iff in H.
-    destruct H as [[[[[[[[[H1 H2] H3] H4] H5] H6] H7] H8] H9] H10].
+    destruct H as [[[[[[[[[[H1 H2] H3] H4] H5] H6] H7] H8] H9] H10] H11].
     constructor.
     + apply NW_reflect. rewrite H1, H2, H3. reflexivity.
     + apply RW_reflect. exact H4.
@@ -292,19 +321,20 @@ Proof.
     + apply UD_reflect. exact H10.
     + apply FH_reflect. exact H8.
     + apply SW_reflect_core. exact H9.
+    + apply OE_reflect. exact H11.
   - intros HI. pose proof (proj2 (NW_reflect s) (inv_nw _ HI)) as HN.
     rewrite !andb_true_iff in HN. destruct HN as [[H1 H2] H3].
     rewrite H1, H2, H3, (proj2 (RW_reflect s) (inv_rw _ HI)), (proj2 (DW_reflect s) (inv_dw _ HI)),
             (proj2 (AC_reflect s) (inv_ac _ HI)), (undeclared_from_inv false s HI),
             (proj2 (FH_reflect s) (inv_fh _ HI)), (proj2 (SW_reflect_core s) (inv_sw _ HI)),
-            (proj2 (UD_reflect s) (inv_ud _ HI)).
+            (proj2 (UD_reflect s) (inv_ud _ HI)), (proj2 (OE_reflect s) (inv_oe _ HI)).
     reflexivity.
 Qed.
 
 (* the full invariant implies the core invariant *)
 Lemma Inv_true_false s : Inv true s -> Inv false s.
 Proof.
-  intros [I1 I2 I3 I4 I5 I6 I7]. constructor; try assumption.
+  intros [I1 I2 I3 I4 I5 I6 I7 I8]. constructor; try assumption.
   intros r Hr. specialize (I7 r Hr). unfold sw_ok_b in *. apply andb_true_iff in I7. destruct I7 as [I7 _].
   rewrite I7. reflexivity.
 Qed.
